@@ -57,6 +57,11 @@ class Negotiate(explore.Scenario):
         if "impl_version" in c:
             rq.implementation_version_name = c["impl_version"]
         contexts = [build_context(ab, list(tss)) for ab, tss in c["requested"]]
+        # context objects that already carry an ID (e.g. reused from the
+        # accepted_contexts of an earlier association)
+        for cx, pid in zip(contexts, c.get("preset_ids", ())):
+            if pid is not None:
+                cx.context_id = pid
         ext = [build_role(ab, scu_role=r[0], scp_role=r[1]) for ab, r in c.get("roles", {}).items()]
         for e in c.get("ext", ()):
             if e == "async":
